@@ -93,7 +93,7 @@ def cases(ctx):
         k += 1
         if ctx.mine(k):
             yield {"kind": "header", "flavour": flav}
-    nseq = ctx.n(300, 40000)
+    nseq = ctx.n(300, 400000)
     for _ in range(nseq):
         flav = rng.choice(["vanilla", "nv", "reids"])
         names = sorted(isa.TABLE[flav])
